@@ -7,13 +7,13 @@ package main
 // (annotations, allocatable). Oracle: independent arithmetic on the instance-type vector.
 
 import (
-	"time"
 	"context"
 	"encoding/json"
 	"fmt"
 	"math/rand"
 	"strconv"
 	"sync"
+	"time"
 
 	"github.com/aliyun/alibaba-cloud-sdk-go/services/ecs"
 	corev1 "k8s.io/api/core/v1"
@@ -42,7 +42,9 @@ func init() {
 	register("C19", &checkDef{level: "exploration", fn: runC19,
 		batches:  func(th bool) int { return map[bool]int{false: 2, true: 8}[th] },
 		parallel: func(th bool) int { return map[bool]int{false: 2, true: 8}[th] },
-		timeout:  func(th bool) time.Duration { return map[bool]time.Duration{false: 30 * time.Minute, true: 90 * time.Minute}[th] },
+		timeout: func(th bool) time.Duration {
+			return map[bool]time.Duration{false: 30 * time.Minute, true: 90 * time.Minute}[th]
+		},
 	})
 }
 
